@@ -43,6 +43,7 @@ pub enum Ev {
     Gc(GCTask),
     CtxInsert(u128),
     CtxRemove(u128),
+    DirectWrite(Op),          // a write outside any batch (its own journal record)
 }
 pub struct Parts {
     pub stream: Map<Seq<u8>, Seq<u8>>,
@@ -122,6 +123,19 @@ impl Batch {
     { unimplemented!() }
 }
 impl PartitionHandle {
+    // direct (non-batch) writes: applied at once, logged as their own event
+    #[verifier::external_body]
+    pub fn insert<K, V>(&self, Tracked(st): Tracked<&mut St>, key: K, value: V) -> (r: Result<(), FjallError>)
+        ensures final(st).contexts == old(st).contexts, final(st).last_id == old(st).last_id,
+            final(st).parts == apply_op(old(st).parts, Op::Insert(part_of(self), key_bytes::<K>(key), key_bytes::<V>(value))),
+            final(st).log == old(st).log.push(Ev::DirectWrite(Op::Insert(part_of(self), key_bytes::<K>(key), key_bytes::<V>(value)))),
+    { unimplemented!() }
+    #[verifier::external_body]
+    pub fn remove<K>(&self, Tracked(st): Tracked<&mut St>, key: K) -> (r: Result<(), FjallError>)
+        ensures final(st).contexts == old(st).contexts, final(st).last_id == old(st).last_id,
+            final(st).parts == apply_op(old(st).parts, Op::Remove(part_of(self), key_bytes::<K>(key))),
+            final(st).log == old(st).log.push(Ev::DirectWrite(Op::Remove(part_of(self), key_bytes::<K>(key)))),
+    { unimplemented!() }
     // point lookup: reads the model, no effect
     #[verifier::external_body]
     pub fn get<K>(&self, Tracked(st): Tracked<&St>, key: K) -> (r: Result<Option<Slice>, FjallError>)
